@@ -50,17 +50,20 @@ mutual
 /-- "Accepted": the shapes `build` can return (proved in Proofs/Build.lean):
 integer widths are Go's, wrapper choice matches the element wire type, field
 indexes are pairwise distinct and small enough for a tag, maps occur only where
-the codec gets the map pointer (struct fields, top level). -/
+the codec gets the map pointer (struct fields, top level), and the protobuf
+repeated form (directly or behind pointers) is never a slice element, a map key
+or a map value (`isProtoSlice` checks in codec.go / map.go). -/
 def Ty.wf : Ty → Prop
   | .bool | .f32 | .f64 | .str _ | .bytes | .time _ => True
   | .int w | .uint w | .flat w => validWidth w
   | .ptr t => t.wf ∧ t.isMap = false
   | .vslice t => t.wf ∧ t.wt = .varint ∧ t.isMap = false
   | .fslice t => t = .f32 ∨ t = .f64
-  | .lslice t => t.wf ∧ t.wt = .len ∧ t.isMap = false
-  | .pslice t => t.wf ∧ t.wt = .len ∧ t.isMap = false
+  | .lslice t => t.wf ∧ t.wt = .len ∧ t.isMap = false ∧ t.isProtoSlice = false
+  | .pslice t => t.wf ∧ t.wt = .len ∧ t.isMap = false ∧ t.isProtoSlice = false
   | .struct _ fs => (fs.map (·.1)).Nodup ∧ (∀ f ∈ fs, f.1 < 2 ^ 61) ∧ fieldsWf fs
-  | .map k v _ => k.wf ∧ v.wf ∧ k.isMap = false ∧ v.isMap = false
+  | .map k v _ => k.wf ∧ v.wf ∧ k.isMap = false ∧ v.isMap = false ∧ v.isProtoSlice = false ∧
+      k.isProtoSlice = false
 def fieldsWf : Fields → Prop
   | [] => True
   | (_, _, t) :: r => t.wf ∧ fieldsWf r
